@@ -8,7 +8,7 @@ Local Open Scope Z_scope.
 Theorem C14_stop_cancels_all : forall sc s c v s' v' sc',
   c_state v <> CLOSED ->
   do_stop sc s c v = (s', v', Ok tt, sc') ->
-  (forall t, In t (c_tags v) -> In {| o_chan := c; o_name := WCancel; o_str := t |} (s_out s')) /\
+  (forall t, In t (c_tags v) -> handed s' c WCancel t) /\
   c_tags v' = [].
 Proof. exact stop_cancels_all. Qed.
 Print Assumptions C14_stop_cancels_all.
@@ -17,6 +17,7 @@ Print Assumptions C14_stop_cancels_all.
    registered under it - whatever quiet traffic surrounds the reply *)
 Theorem C14_consume_confirmed_tag : forall s c v tag pre tpre f tpost rest,
   c <> 0%nat -> get_chan (s_chans s) c = Some v -> conn_healthy s -> s_io s = true ->
+  s_sendfail s = false ->
   c_state v = OPEN -> c_errs v = [] -> c_req v = [] -> c_resp v = [] ->
   forallb (fun t => forallb (quiet c [NConsumeOk]) t) pre = true ->
   forallb (quiet c [NConsumeOk]) tpre = true -> f_name f = NConsumeOk ->
